@@ -26,10 +26,10 @@ VERSIONS_NEW = [('29 Oct 2020', (2020, 10, 29)), ('2 Aug 2023 - Update 1', (2023
                 ('23 Jun 2022 - Update 4', (2022, 6, 23)), ('17 Nov 2016', (2016, 11, 17)),
                 ('29 Sep 2021 - Update 3', (2021, 9, 29))]
 
-# thermo keyword sets: (name, kind)   kind 'i' integer column, 'f' float column
+# thermo keyword sets: (name, kind)   kind 'i' integer column, 'f' float column, 'L' large value that is fractional in even and integral in odd blocks
 KEYSETS = [
     [('Step', 'i'), ('Temp', 'f'), ('E_pair', 'f'), ('E_mol', 'z'), ('TotEng', 'f'), ('Press', 'f')],
-    [('Step', 'i'), ('Atoms', 'i'), ('PotEng', 'f'), ('Lx', 'f'), ('Pxx', 'f'), ('v_strain', 'e'), ('c_msd[4]', 'f')],
+    [('Step', 'i'), ('Atoms', 'i'), ('PotEng', 'f'), ('Lx', 'f'), ('Pxx', 'f'), ('v_strain', 'e'), ('c_msd[4]', 'f'), ('Volume', 'L')],
     [('Step', 'i'), ('Time', 'f'), ('CPU', 'e'), ('KinEng', 'f'), ('Volume', 'g'), ('f_1', 'f'), ('Dihed', 'i'),
      ('v_n', 'i'), ('Pzz', 'f')],
 ]
@@ -44,6 +44,11 @@ _FAM = {'f': [(-13419.839, 1.37, 0.011), (300.0, -0.25, 0.5), (1.01325, 0.0005, 
 def _value(kind, j, step, block, salt):
     if kind == 'z':
         return 0.0
+    if kind == 'L':
+        # a large quantity that fluctuates in one run (NPT volume 1000128.8 ...) and is constant-integral in the next
+        # (NVT: printed '1000010'): the later run's column is integer-typed, the earlier one's values are not integral
+        # although their fractional part is below 1e-5 relative
+        return 1000123.75 + 0.5 * step if block % 2 == 0 else float(1000000 + step)
     fam = _FAM[kind]
     a, b, c = fam[(j + salt) % len(fam)]
     return a + b * step + c * (block + 1 + salt) * (step % 7 + 1)
